@@ -575,6 +575,9 @@ STRINGS = ['auto', 'K', 'Pa', 'bar', 'linear', 'multi', 'parameter', 'H2O', 'CH4
 # code, outcome recorded, never judged
 NON_ASCII = ['٣', '１２', 'İsothermal', 'ＴＲＵＥ', '1\u00a0', '²']
 MOLS = ['H2O', 'CH4', 'CO2', 'CO', 'NH3', 'N2', 'TiO', 'HCN']
+# names a documented "string list" (fill_gases, gases, cia_pairs, ...) may legitimately hold that happen to read as one of the
+# boolean words in some letter case (nitric oxide!), or carry upper-case letters: they must stay the strings written
+WORDLIKE_NAMES = ['NO', 'No', 'no', 'YES', 'Yes', 'True', 'false', 'NOPE', 'Yup', 'N2', 'He', 'H2', 'K', 'Pa', 'TiO', 'NaH']
 
 
 def rcase(rng, s):
@@ -636,7 +639,9 @@ def str_literal(rng):
 
 def list_literal(rng):
     n = int(rng.integers(0, 5))
-    m = int(rng.integers(0, 4))
+    m = int(rng.integers(0, 5))
+    if m == 4:
+        return [str(rng.choice(WORDLIKE_NAMES)) for _ in range(max(n, 1))]
     if m == 0:
         return [num_literal(rng) for _ in range(n)]
     if m == 1:
@@ -997,7 +1002,12 @@ class FileGen:
             ks = self.classes(slot) if slot in self.reg else []
             pool = sorted({a for k in ks for a in k['args']})
             if pool:
-                sc = sc + [(str(rng.choice(pool)) , num_literal(rng))] if True else sc
+                sk = str(rng.choice(pool))
+                # a sibling's key may be one this class knows too: keep array-sizing parameters small (ngauss = 75981
+                # makes numpy build a 46 GB companion matrix)
+                sv = literal_for(rng, ('scalar', ('int', 0)), sk, self.scratch) \
+                    if any(w in sk.lower() for w in SIZE_WORDS) else num_literal(rng)
+                sc = sc + [(sk, sv)]
                 seen = set()
                 sc = [kv for kv in sc if not (kv[0] in seen or seen.add(kv[0]))]
         elif kind == 'misspelt_section':
@@ -1206,6 +1216,10 @@ def key_reaches(ctx, slot, got, f, case_small):
                           % (k, where), case_small, dict(key=k, calls=[show_call(c) for c in got['calls']][:4]))
             return False
         exp = oracle_typed(raw)
+        if exp is not NotImplemented and (isinstance(exp, str) or (isinstance(exp, list) and exp and isinstance(exp[0], str))):
+            ctx.bucket('value-judged:%s' % ('string-list' if isinstance(exp, list) else 'string') +
+                       (':wordlike-or-uppercase' if str(raw) != str(raw).lower() or (
+                           isinstance(raw, list) and any(x.lower() in WORDS_T + WORDS_F for x in raw)) else ''))
         if exp is not NotImplemented and not same_typed(exp, got_kw[k]):
             ctx.violation('value:%s' % keyname.split(':', 1)[1],
                           'key %r set under %s reached the constructor with a different value than the one written'
@@ -1245,13 +1259,29 @@ def oracle_typed(raw):
         return float(Fraction(s))
     if isinstance(raw, list):
         vals = [num(x) for x in raw]
-        return vals if raw and all(v is not None for v in vals) else NotImplemented
+        if raw and all(v is not None for v in vals):
+            return vals
+        # a "string list" (my_string_list = hello,how,are,you): no element reads as a number -> the strings written
+        if raw and not any(pyfloat_ok(x) for x in raw):
+            return list(raw)
+        return NotImplemented
     if raw.lower() in WORDS_T:
         return True
     if raw.lower() in WORDS_F:
         return False
     v = num(raw)
-    return v if v is not None else NotImplemented
+    if v is not None:
+        return v
+    # a string variable (neither a boolean word nor anything float() reads): the string as written
+    return raw if not pyfloat_ok(raw) else NotImplemented
+
+
+def pyfloat_ok(x):
+    try:
+        float(x)
+        return True
+    except (ValueError, OverflowError):
+        return False
 
 
 def same_typed(exp, got):
@@ -1266,6 +1296,8 @@ def eval_file(ctx, case, scratch, count=True):
     write_file(path, f)
     small = dict(file=f, customs=[(p, [m['name'] for m in ms]) for p, ms in case['customs']],
                  malformed=case.get('malformed'), flavour=case.get('flavour'))
+    if case.get('repeat'):
+        small['repeat'] = list(case['repeat'])
     # assumption: ConfigObj gives back the tree that was written
     import configobj
     try:
@@ -1312,6 +1344,8 @@ def eval_file(ctx, case, scratch, count=True):
     mal = case.get('malformed')
     if mal is not None:
         judge_malformed(ctx, case, results, small)
+    if case.get('repeat'):
+        repeat_history(ctx, pp, case, g, results, small)
     if count:
         key = (case.get('flavour'), tuple(case['meta']))
         ctx.case(key=key, sample=dict(file=f, model_graph={k: (v[0] if v else None) for k, v in (g or {}).items()}),
@@ -1321,6 +1355,34 @@ def eval_file(ctx, case, scratch, count=True):
             ctx.bucket('%s:%s' % (slot, 'absent' if (r['exc'] is None and r['ret'] is None) else
                                   (type(r['exc']).__name__ if r['exc'] is not None else 'built')))
     return results, g
+
+
+def call_signature(got):
+    return (type(got['exc']).__name__ if got['exc'] is not None else None, got['ret'] is None,
+            [show_call(c) for c in got['calls']])
+
+
+def repeat_history(ctx, pp, case, g, first, small):
+    """object history: the SAME ParameterParser is asked again (a program that builds the planet for a report and then the
+    model; a notebook that regenerates a component).  What a section resolves to is a function of the input file alone
+    (Factory.expected is a pure function of the file): every later generate_*() must make the same constructor calls as the
+    first one - judged against the model again, and against the first request on the real code"""
+    small = dict(small, repeat=list(case['repeat']))
+    for slot in case['repeat']:
+        again = run_slot(pp, slot)
+        again['refs'] = model_refs(again) if slot == 'model' else (first[slot].get('refs', {}) if slot == 'instrument' else {})
+        ctx.bucket('repeat:' + slot)
+        if g is not None:
+            compare_slot(ctx, slot, expected_sequence(g, slot), again, small)
+        if body_raised(first[slot]['calls']) or body_raised(again['calls']):
+            ctx.bucket('repeat:ctor-body-raised')
+            continue
+        a, b = call_signature(first[slot]), call_signature(again)
+        if a != b:
+            ctx.violation('repeat-differs:%s' % slot,
+                          'asking the same ParameterParser for the %s again built different components than the first request '
+                          'for the same input file' % slot, small, dict(first=a, again=b))
+            return
 
 
 def model_refs(got):
@@ -1416,6 +1478,13 @@ def eval_transform(ctx, raw):
                 ctx.violation('typing:list', 'a list of decimal literals is not typed as a list of floats', case,
                               dict(got=clean_repr(real)))
         kind = 'list'
+        if raw and not any(pyfloat_ok(x) for x in raw):
+            # the documented string list: no element reads as a number -> exactly the strings written
+            kind = 'string-list' + (':wordlike' if any(x.lower() in WORDS_T + WORDS_F for x in raw) else '')
+            if not (isinstance(real, list) and len(real) == len(raw) and
+                    all(type(a) is str and a == b for a, b in zip(real, raw))):
+                ctx.violation('typing:string-list', 'a list of strings (no element reads as a number) is not passed on as '
+                              'the strings written', case, dict(got=clean_repr(real)))
     elif raw.lower() in WORDS_T + WORDS_F:
         if real is not (raw.lower() in WORDS_T):
             ctx.violation('typing:bool', 'a documented boolean word is not typed as that boolean', case,
@@ -1426,6 +1495,12 @@ def eval_transform(ctx, raw):
             ctx.violation('typing:number', 'a decimal literal is not typed as the float it denotes', case,
                           dict(got=clean_repr(real)))
         kind = 'number'
+    elif not pyfloat_ok(raw):
+        # the documented string variable: neither a boolean word nor a number -> the string as written
+        kind = 'string' + (':uppercase' if raw != raw.lower() else '')
+        if not (type(real) is str and real == raw):
+            ctx.violation('typing:string', 'a string value (neither a boolean word nor a number) is not passed on as written',
+                          case, dict(got=clean_repr(real)))
     else:
         kind = 'other:' + type(real).__name__
     ctx.case(key=('transform', raw if not isinstance(raw, list) else tuple(raw)), bucket='transform:' + kind,
@@ -1453,7 +1528,8 @@ def transform_stream(ctx):
     for v in HAND_VALUES:
         eval_transform(ctx, v)
     for v in (['1', '2.5'], ['1', 'x'], [], ['true'], ['inf', 'nan'], ['1_0', '2'], ['1__0', '2'], [' 1', '2 '],
-              ['H2', 'He'], ['', '1'], ['1e5'], ['no', '1']):
+              ['H2', 'He'], ['', '1'], ['1e5'], ['no', '1'], ['N2', 'NO'], ['H2O', 'CO2', 'NO'], ['yes', 'no'], ['True'],
+              ['K', 'Pa'], ['nope', 'x', 'Yup']):
         eval_transform(ctx, v)
     for _ in range(ctx.n(3000, 60000)):
         m = int(rng.integers(0, 6))
@@ -1894,6 +1970,231 @@ def composite_stream(ctx, scratch):
                                          malformed=mc['malformed'], flavour=mc['flavour'], meta=mc['meta'])
 
 
+def keycase_stream(ctx, scratch):
+    """keys are case-sensitive names of constructor keywords: a documented key written in ANOTHER letter case is not a key of
+    the component - it must be reported (or, were it accepted, reach the constructor), never silently dropped.  Every plain
+    selector of every section with up to three of its keys, and the two sections ParameterParser short-cuts (snr instrument,
+    file-key observation): one valid section, then the same section with ONE key re-spelt in another letter case"""
+    rng = ctx.rng
+    reg = gen()['registry']
+    aux = os.path.join(scratch, 'aux')
+    np.savetxt(os.path.join(aux, 'chem.dat'), np.full((6, 2), 1e-4))
+    np.savetxt(os.path.join(aux, 'temp.dat'), np.linspace(1500, 500, 6))
+    needed = {'ChemistryFile': [('gases', ['H2O', 'CH4']), ('filename', os.path.join(aux, 'chem.dat'))],
+              'TemperatureFile': [('filename', os.path.join(aux, 'temp.dat'))]}
+
+    def respell(key):
+        out = []
+        for v in (key.swapcase(), key.lower(), key.upper(), key.capitalize()):
+            if v != key and v not in out:
+                out.append(v)
+        return out
+
+    def one(sec, hdr, valid, accepted, key, newkey, tag, replace):
+        sc = [((newkey if k == key else k), v) for k, v in valid] if replace else valid + [(newkey, '1.0')]
+        return dict(file=[(hdr, dict(scalars=sc, subs=[]))], customs=[], flavour=tag,
+                    malformed=dict(kind='unknown_key', slot=sec, target=sec, header=hdr),
+                    meta=[('keycase', sec, tag, key, newkey, replace)])
+
+    def judge(mc):
+        nv = len(ctx.violations)
+        eval_file(ctx, mc, scratch)
+        ctx.bucket('keycase:%s' % mc['malformed']['slot'])
+        for v in ctx.violations[nv:]:
+            v['case'] = dict(kind='file', file=mc['file'], customs=[], custom_src={}, malformed=mc['malformed'],
+                             flavour=mc['flavour'], meta=mc['meta'])
+    for sec in SLOTS:
+        if sec not in reg:
+            continue
+        hdr, field = SEC_HEADER[sec], SEC_FIELD[sec]
+        for k in reg[sec]['classes']:
+            if not k['keywords'] or not k['kwargs']:
+                continue
+            sel = str(rng.choice(k['keywords']))
+            valid = [(field, sel)] + needed.get(k['name'], [])
+            accepted = {a for a, _ in k['kwargs']} | set(k['args']) | {field, 'python_file', 'num_observations'}
+            base = dict(file=[(hdr, dict(scalars=valid, subs=[]))], customs=[], flavour='targeted', malformed=None,
+                        meta=[('keycase', sec, sel, 'valid')])
+            res = eval_file(ctx, base, scratch)
+            buildable = res is not None and res[0][sec]['exc'] is None and res[0][sec]['ret'] is not None
+            keys = [a for a, _ in k['kwargs'] if a not in dict(valid)]
+            pick = [keys[int(i)] for i in rng.permutation(len(keys))[:ctx.n(2, 6)]]
+            for key in pick:
+                for nk in respell(key)[:ctx.n(2, 4)]:
+                    if nk in accepted:
+                        continue
+                    judge(one(sec, hdr, valid, accepted, key, nk, 'targeted' if buildable else 'keycase-unbuildable', False))
+    # the snr short-cut of [Instrument]: the one documented key is `SNR`
+    for sel in ('snr', 'signalnoise', 'SNR'):
+        valid = [('instrument', sel), ('SNR', num_literal(rng, positive=True))]
+        for nk in ('snr', 'Snr', 'sNR', 'snR'):
+            for replace in (True, False):
+                mc = one('instrument', 'Instrument', valid, set(), 'SNR', nk, 'targeted', replace)
+                if not replace:
+                    mc['file'][0][1]['scalars'][-1] = (nk, num_literal(rng, positive=True))
+                judge(mc)
+    # the file-key short-cuts of [Observation]
+    obsfile = os.path.join(aux, 'obs.dat')
+    for key in OBS_FILE_KEYS:
+        for nk in respell(key)[:2]:
+            mc = one('observation', 'Observation', [(key, obsfile if key != 'taurex_spectrum' else 'self')], set(), key, nk,
+                     'targeted', False)
+            mc['file'][0][1]['scalars'][-1] = (nk, obsfile)
+            judge(mc)
+
+
+EXT_STEMS = ['LinearSlope', 'GradientProfile', 'TwoStreamModel', 'Tp', 'RetrievedProfileVersion']
+EXT_SUFFIXES = ['WarmTop', 'ColdTop', 'A', 'B', 'Inverted', 'X2', '']
+EXT_MIX_STEMS = ['OffsetMixin', 'TemperatureJitterMixin', 'Shift']
+
+
+def gen_extension_case(rng, it):
+    """classes of an extension directory (documented `Extension Path Method`: a .py file whose classes carry input_keywords):
+    2-4 temperature profiles and 1-2 temperature mixins, names drawn from families that share a long common prefix, and a
+    sequence of input files (plain and composite `+` selectors over these classes and the built-in tempscalar mixin), all
+    read one after the other in the same process"""
+    def names(stems, n):
+        stem = str(rng.choice(stems))
+        out = []
+        for sfx in rng.permutation(EXT_SUFFIXES):
+            nm = stem + str(sfx)
+            if len(out) < n and nm not in out:
+                out.append(nm)
+        return out
+    bases = [dict(name=nm + '_%d' % it if rng.random() < 0.3 else nm, keyword='ext-%s-%d' % (nm.lower(), it),
+                  kwargs=[('p%d_%s' % (i, nm.lower()[-3:]), float(rng.integers(1, 900))) for i in range(int(rng.integers(1, 4)))])
+             for nm in names(EXT_STEMS, int(rng.integers(2, 5)))]
+    mixins = [dict(name=nm, keyword='extmix-%s-%d' % (nm.lower(), it),
+                   kwargs=[('m%d_%s' % (i, nm.lower()[-3:]), float(rng.integers(1, 900))) for i in range(int(rng.integers(1, 3)))])
+              for nm in names(EXT_MIX_STEMS, int(rng.integers(1, 3)))]
+    seq = []
+    mk = [m['keyword'] for m in mixins] + ['tempscalar']
+    for rep in range(2):
+        for j in rng.permutation(len(bases)):
+            b = bases[int(j)]
+            nm = int(rng.integers(0, 3))
+            ms = [str(x) for x in rng.choice(mk, size=min(nm, len(mk)), replace=False)]
+            keys = [(k, num_literal(rng, positive=True)) for k, _ in b['kwargs'] if rng.random() < 0.6]
+            for m in mixins:
+                if m['keyword'] in ms:
+                    keys += [(k, num_literal(rng, positive=True)) for k, _ in m['kwargs'] if rng.random() < 0.6]
+            if 'tempscalar' in ms and rng.random() < 0.6:
+                keys.append(('scale_factor', num_literal(rng, positive=True)))
+            seq.append(dict(selector='+'.join(ms + [b['keyword']]), keys=keys))
+    return dict(kind='extension', it=it, bases=bases, mixins=mixins, files=seq)
+
+
+def extension_source(case):
+    src = ['import numpy as np', 'from taurex.temperature import TemperatureProfile',
+           'from taurex.mixin import TemperatureMixin', '']
+    for b in case['bases']:
+        sig = ', '.join(['self'] + ['%s=%r' % (k, v) for k, v in b['kwargs']])
+        src += ['class %s(TemperatureProfile):' % b['name'],
+                '    def __init__(%s):' % sig,
+                '        super().__init__(%r)' % b['name'],
+                '        self._ext_kw = dict(%s)' % ', '.join('%s=%s' % (k, k) for k, _ in b['kwargs']),
+                '    @property', '    def profile(self):', '        return np.full(self.nlayers, 1000.0)',
+                '    @classmethod', '    def input_keywords(cls):', '        return [%r]' % b['keyword'], '']
+    for m in case['mixins']:
+        sig = ', '.join(['self'] + ['%s=%r' % (k, v) for k, v in m['kwargs']])
+        src += ['class %s(TemperatureMixin):' % m['name'],
+                '    def __init_mixin__(%s):' % sig,
+                '        self._ext_mix_%s = dict(%s)' % (m['name'], ', '.join('%s=%s' % (k, k) for k, _ in m['kwargs'])),
+                '    @classmethod', '    def input_keywords(cls):', '        return [%r]' % m['keyword'], '']
+    return '\n'.join(src) + '\n'
+
+
+def eval_extension(ctx, scratch, case):
+    """every selector over extension classes resolves to exactly the classes its parts name (each part looked up on its own
+    through the same factories), and the keys of the section reach those classes' constructors with the values written"""
+    from taurex.parameter.classfactory import ClassFactory
+    from taurex.parameter import ParameterParser, factory as F
+    from taurex.temperature import TemperatureProfile
+    d = tempfile.mkdtemp(prefix='ext_', dir=scratch)
+    with open(os.path.join(d, 'ext_profiles_%d.py' % int(case['it'])), 'w') as fh:
+        fh.write(extension_source(case))
+    cf = ClassFactory()
+    try:
+        try:
+            cf.set_extension_paths(paths=[d])
+        except AttributeError as e:
+            # TODO (genuine defect of /repo, reported to the coordinator, NOT judged): ClassFactory.load_extension_paths calls
+            # self.info(...) but ClassFactory has no `info` (its logger is self.log): every non-empty extension path raises
+            # AttributeError, the documented `Extension Path Method` cannot be used.  The remaining documented steps of that
+            # loader (load the file as a module, hand it to load_plugin) are carried out here so that what the property
+            # says about the classes of such a file is still exercised.
+            if 'info' not in str(e):
+                raise
+            ctx.bucket('TODO-finding:extension-path-loader-raises-AttributeError:not-judged')
+            import importlib.util
+            import pathlib
+            cf.extension_paths = []
+            cf.reload_plugins()
+            for fn in sorted(os.listdir(d)):
+                spec = importlib.util.spec_from_file_location(pathlib.Path(fn).stem, os.path.join(d, fn))
+                mod = importlib.util.module_from_spec(spec)
+                spec.loader.exec_module(mod)
+                cf.load_plugin(mod)
+        byname = {c.__name__: c for c in list(cf.temperatureKlasses) + list(cf.temperatureMixinKlasses)}
+        missing = [x['name'] for x in case['bases'] + case['mixins'] if x['name'] not in byname]
+        if missing:
+            ctx.malformed_outcome('extension-classes-not-loaded')
+            return
+        info = {x['keyword']: x for x in case['bases'] + case['mixins']}
+        for f in case['files']:
+            parts = f['selector'].split('+')
+            path = os.path.join(scratch, 'ext.par')
+            write_file(path, [('Temperature', dict(scalars=[('profile_type', f['selector'])] + [tuple(kv) for kv in f['keys']],
+                                                   subs=[]))])
+            ctx.case(key=('extension', len(parts), len(f['keys'])), bucket='stream:extension:%s' % (
+                'composite' if len(parts) > 1 else 'plain'), sample=dict(selector=f['selector']))
+            small = dict(case, failing_file=f)
+            want_base = F.temp_factory(parts[-1])
+            want_mix = [F.mixin_factory(m, TemperatureProfile) for m in parts[:-1]]
+            pp = ParameterParser()
+            pp.read(path)
+            try:
+                obj = pp.generate_temperature_profile()
+            except Exception as e:  # noqa
+                ctx.violation('extension-selector-raises:temperature', 'a well-formed [Temperature] section over classes of '
+                              'the extension path raised %r' % (e,), small)
+                return
+            ctx.disagreements_checked += 1
+            got = type(obj).__bases__ if parts[:-1] else (type(obj),)
+            if tuple(got) != tuple(want_mix) + (want_base,):
+                ctx.violation('selector-resolves-to-another-class:temperature',
+                              'profile_type = %s built an object of %s, the selector names %s'
+                              % (f['selector'], [c.__name__ for c in got], [c.__name__ for c in want_mix + [want_base]]), small)
+                return
+            given = {k: oracle_typed(v) for k, v in f['keys']}
+
+            def same(received, kwargs):
+                # keys written in a spelling the documented typing does not settle (1_0, inf, ...) are not judged here
+                return isinstance(received, dict) and set(received) == {k for k, _ in kwargs} and all(
+                    given.get(k, dv) is NotImplemented or (type(received[k]) is float and received[k] == given.get(k, dv))
+                    for k, dv in kwargs)
+            exp = {k: given.get(k, dv) for k, dv in info[parts[-1]]['kwargs']}
+            ok = same(getattr(obj, '_ext_kw', None), info[parts[-1]]['kwargs'])
+            for m in parts[:-1]:
+                if m in info:
+                    ok = ok and same(getattr(obj, '_ext_mix_' + info[m]['name'], None), info[m]['kwargs'])
+                elif given.get('scale_factor', NotImplemented) is not NotImplemented:
+                    ok = ok and obj.scaleFactor == given['scale_factor']
+            if not ok:
+                ctx.violation('value:temperature:extension', 'the keys of a [Temperature] section over extension classes did not '
+                              'reach the constructors with the values written', small,
+                              dict(base_received=getattr(obj, '_ext_kw', None), expected=repr(exp)))
+                return
+    finally:
+        cf.set_extension_paths(paths=None)
+        shutil.rmtree(d, ignore_errors=True)
+
+
+def extension_stream(ctx, scratch):
+    for it in range(ctx.n(4, 40)):
+        eval_extension(ctx, scratch, gen_extension_case(ctx.rng, it))
+
+
 def makefree_stream(ctx, scratch):
     """the documented composite `makefree+file` chemistry WITH gas sub-sections: every [[gas]] sub-section reaches the built
     chemistry, exactly as `enhance_class(ChemistryFile, MakeFreeMixin, ...).addGas(...)` through the library"""
@@ -2169,6 +2470,7 @@ def run(ctx):
         case_stream(ctx)
         transform_stream(ctx)
         composite_stream(ctx, s.scratch)
+        keycase_stream(ctx, s.scratch)
         makefree_stream(ctx, s.scratch)
         fg = FileGen(rng, s.scratch)
         n = ctx.n(1500, 24000)
@@ -2177,13 +2479,17 @@ def run(ctx):
             case = fg.file(fl)
             if i % 3 == 2:
                 case = fg.malform(case)
+            if i % 4 in (1, 3):
+                # history quota: the same parser object is asked for (some of) its components a second time
+                k = int(rng.integers(1, len(SLOTS) + 1))
+                case['repeat'] = [SLOTS[int(j)] for j in rng.permutation(len(SLOTS))[:k]]
             case['custom_src'] = attach_sources(case)
             nv = len(ctx.violations)
             eval_file(ctx, case, s.scratch)
             for v in ctx.violations[nv:]:
                 v['case'] = dict(kind='file', file=case['file'], customs=case['customs'],
                                  custom_src=case['custom_src'], malformed=case.get('malformed'),
-                                 flavour=case.get('flavour'), meta=case['meta'])
+                                 flavour=case.get('flavour'), meta=case['meta'], repeat=case.get('repeat'))
         opac = make_opacities(s.scratch, rng)
         for i in range(ctx.n(24, 240)):
             case = gen_cli_case(rng, opac)
@@ -2204,6 +2510,7 @@ def run(ctx):
                     for v in ctx.violations[nv:]:
                         v['case'] = dict(kind='file', file=mc['file'], customs=[], custom_src={},
                                          malformed=mc['malformed'], flavour='targeted', meta=mc['meta'])
+        extension_stream(ctx, s.scratch)
 
 
 def prepare_aux(scratch):
@@ -2230,6 +2537,8 @@ def replay(ctx, case):
             case_stream(ctx)
         elif kind == 'makefree':
             makefree_stream(ctx, s.scratch)
+        elif kind == 'extension':
+            eval_extension(ctx, s.scratch, case)
         elif kind in ('cli', 'cli_instrument'):
             opac = make_opacities(s.scratch, np.random.default_rng(int(case.get('opac_seed', 0))))
             c = dict(case)
